@@ -166,6 +166,54 @@ pub fn run(rep: &'static Report) {
             rep.sample(json!({"files": ws.files.iter().map(|f| f.rel.clone()).collect::<Vec<_>>(), "orders": permutations(n).len()}));
         }
     });
+    // import-bridged cycles: same-named fixtures in two conftest.py files (same line numbers) joined
+    // into one dependency structure by a parent conftest star-importing a module of the sub-directory;
+    // dotted module names need real directories, so these run on materialised trees (all orders)
+    let mut bridged = 0u64;
+    {
+        let mut fam: Vec<Ws> = Vec::new();
+        for dx_root in [vec![], vec!["y"], vec!["x"]] {
+            for dx_sub in [vec![], vec!["x"], vec!["y"]] {
+                for dy in [vec![], vec!["x"]] {
+                    fam.push(Ws { files: vec![
+                        FileSpec::new("conftest.py", vec![Item::fixture("x", &dx_root), Item::StarImport { module: "s.extra".into() }]),
+                        FileSpec::new("s/conftest.py", vec![Item::fixture("x", &dx_sub)]),
+                        FileSpec::new("s/extra.py", vec![Item::fixture("y", &dy)]),
+                        FileSpec::new("s/test_it.py", vec![Item::test("it", &["x", "y"])]),
+                    ] });
+                }
+            }
+        }
+        par_batches(&fam, 2, |_i, ws| {
+            let r = ws.render();
+            let sc = Scratch::new("c08b");
+            materialize(ws, &r, sc.path());
+            let root = sc.path().to_string_lossy().to_string();
+            let mut reference: Option<(Vec<String>, Vec<usize>, bool)> = None;
+            for perm in permutations(ws.files.len()) {
+                for fresh in [false, true] {
+                    let snap = full_snapshot(build_db_at(ws, &r, &perm, fresh, &root), ws, &root);
+                    dbs.fetch_add(1, Ordering::Relaxed);
+                    match &reference {
+                        None => reference = Some((snap, perm.clone(), fresh)),
+                        Some((rs, rperm, rfresh)) => {
+                            if *rs != snap {
+                                let diff: Vec<&String> = snap.iter().filter(|l| !rs.contains(l)).collect();
+                                let kinds: std::collections::BTreeSet<String> = diff.iter().map(|l| l.split(' ').next().unwrap_or("").to_string()).collect();
+                                let fp = format!("answers depend on analysis order (cycle bridged by an import across directories): {:?}", kinds);
+                                if !rep.count_if_seen(&fp) {
+                                    rep.violation(&fp, &format!("workspace {:?}: order {:?} (scan path {}) vs order {:?} (scan path {}): differing answers {:?}", ws.files.iter().map(|f| (&f.rel, &f.items)).collect::<Vec<_>>(), rperm, rfresh, perm, fresh, diff),
+                                        || json!({"case": {"ws": ws, "order": perm, "fresh": fresh}, "on_disk": true, "reference_order": rperm, "differing": diff}));
+                                }
+                            }
+                        }
+                    }
+                }
+                orders_total.fetch_add(1, Ordering::Relaxed);
+            }
+        });
+        bridged += fam.len() as u64;
+    }
     // conformance: the real parallel scan (rayon) on materialised workspaces, several pool sizes
     let mut conf = 0u64;
     let subset: Vec<&Ws> = wss.iter().skip(n_extra).step_by((wss.len() / if thorough { 150 } else { 40 }).max(1)).collect();
@@ -201,7 +249,7 @@ pub fn run(rep: &'static Report) {
     }
     let d = dbs.load(Ordering::Relaxed);
     rep.set("evaluations", d);
-    rep.set("workspaces", json!({"extra_collision_workspaces": n_extra, "layouts_with_collisions": n_lay, "chains": n_chain, "max_files_all_orders": max_files_all_orders}));
+    rep.set("workspaces", json!({"import_bridged_cycle_workspaces_on_disk": bridged, "extra_collision_workspaces": n_extra, "layouts_with_collisions": n_lay, "chains": n_chain, "max_files_all_orders": max_files_all_orders}));
     rep.set("orders_explored", orders_total.load(Ordering::Relaxed));
     rep.set("states", states.lock().unwrap().len() as u64);
     rep.set("transitions", d);
@@ -209,6 +257,6 @@ pub fn run(rep: &'static Report) {
     rep.set("traces_validated_against_impl", conf);
     rep.set("hash_seeds_swept", json!(seeds));
     rep.set("exhaustive", true);
-    rep.set("rule", "workspaces with colliding fixture names (hand-written plugin/third-party/import duplicates, every C01 layout with ≥2 defining files, every C02 chain with ≥2 links, file count within the bound); for each, EVERY permutation of the per-file analysis order through analyze_file and through the scan's no-cleanup path; all answer snapshots (go-to-definition at every usage, references of every definition, available fixtures, cycles, scope mismatches, unused list, workspace/document symbols) must be identical; plus a labelled sweep of hash seeds and, as conformance (traces_validated), the real rayon scan_workspace on materialised trees with pools of 1, 2 and 16 threads, twice each; states = distinct answer snapshots (must equal the number of workspaces when the property holds)");
+    rep.set("rule", "workspaces with colliding fixture names (hand-written plugin/third-party/import duplicates, every C01 layout with ≥2 defining files, every C02 chain with ≥2 links, file count within the bound; 18 on-disk workspaces in which same-named fixtures of two conftest.py files are joined by a star import across directories); for each, EVERY permutation of the per-file analysis order through analyze_file and through the scan's no-cleanup path; all answer snapshots (go-to-definition at every usage, references of every definition, available fixtures, cycles, scope mismatches, unused list, workspace/document symbols) must be identical; plus a labelled sweep of hash seeds and, as conformance (traces_validated), the real rayon scan_workspace on materialised trees with pools of 1, 2 and 16 threads, twice each; states = distinct answer snapshots (must equal the number of workspaces when the property holds)");
     rep.assume("thread schedules of the parallel scan affect the index only through the order of per-file analyses (C09 shows interleavings are index-equivalent to a sequential order)");
 }
